@@ -29,6 +29,7 @@ type Prod struct {
 	Endorsement *big.Int   // params[proposer-endorsement] in wei (nil: thor's default, 25M VET)
 	Periods     [3]uint32  // low / medium / high staking period (0: thor's default)
 	Cooldown    uint32
+	Interval    uint64 // thor.BlockInterval in seconds (0: unchanged; process-global)
 	Seeder      uint32 // thor.SeederInterval (0: thor's default 8640; the config is process-global, so it is always set)
 	TP          uint32 // HAYABUSA transition period in blocks (0 with Options.PoS: PoS is active from genesis)
 	Funded      int    // dev accounts 0..Funded-1 get BigBalance VET and VTHO (0 = all ten)
@@ -114,7 +115,7 @@ func NewNetProd(o Options, p Prod) *Net {
 		Stakers:    stakers,
 		Params:     params,
 		ForkConfig: fc,
-		Config: &thor.Config{EpochLength: o.EpochLength, HayabusaTP: &tp, SeederInterval: seeder, LowStakingPeriod: p.Periods[0],
+		Config: &thor.Config{BlockInterval: p.Interval, EpochLength: o.EpochLength, HayabusaTP: &tp, SeederInterval: seeder, LowStakingPeriod: p.Periods[0],
 			MediumStakingPeriod: p.Periods[1], HighStakingPeriod: p.Periods[2], CooldownPeriod: p.Cooldown},
 	})
 	must(err)
@@ -183,3 +184,7 @@ func (n *Net) MintAt(parentID thor.Bytes32, who int, benef *thor.Address, com bo
 	}
 	return m, nil
 }
+
+// MarkSynced makes the mock communicator report "synced": a RealRun node's packer loop leaves its initial wait.
+// Call it once per node.
+func (c *Comm) MarkSynced() { close(c.synced) }
